@@ -270,11 +270,23 @@ class Runner:
         self.count('monitor_evaluations')
         self.count(f'outcome/{outcome}')
         self.count(f'class/{cls}/{outcome}')
-        if outcome == 'timeout':
+        text_probe = text if isinstance(text, str) else (text or b'').decode('latin-1') if isinstance(text, bytes) else ''
+        amplifying = bool(re.search(r'\b(pad|rep|reserve|segment)\b|<<|\*\*', text_probe))
+        if outcome == 'timeout' and amplifying and cls.startswith(('mutation/', 'stl/')):
+            # a mutated source that can ask for an astronomically large layout (pad/rep/reserve/segment operand, shifts):
+            # unbounded work, not a hang of the error handling - reported, never a verdict
+            self.count('timeouts_on_size_amplifying_mutants')
+        elif outcome == 'catch-all' and amplifying and cls.startswith(('mutation/', 'stl/')) and isinstance(exc.__cause__ if exc else None, MemoryError):
+            self.count('memory_exhaustion_on_size_amplifying_mutants')
+        elif outcome == 'timeout':
             self.count('watchdog_timeouts')
             self.counters.setdefault('watchdog_timeout_classes', [])
             if cls not in self.counters['watchdog_timeout_classes']:
                 self.counters['watchdog_timeout_classes'].append(cls)
+            self.counters.setdefault('watchdog_timeout_cases', [])
+            if len(self.counters['watchdog_timeout_cases']) < 3:
+                t = case.get('text')
+                self.counters['watchdog_timeout_cases'].append({'class': cls, 'w': case.get('w'), 'text': (t.hex() if isinstance(t, bytes) else str(t))[:1500]})
         elif outcome == 'catch-all' and cls == 'arithmetic-blowup' and isinstance(exc.__cause__ if exc else None, MemoryError):
             self.count('blowup_hit_the_address_space_limit')  # resource exhaustion under RLIMIT_AS: reported, not a verdict
         elif outcome == 'catch-all':
@@ -334,6 +346,11 @@ def shard_mutate(spec: Dict[str, Any], runner: Runner) -> List[Any]:
         probe = text if isinstance(text, str) else text.decode('latin-1')
         if any(not re.fullmatch(r'\s*[0-9]{1,3}\s*', m) for m in re.findall(r'rep\s*\(([^,\n]*)', probe)):
             runner.count('mutants_skipped_unbounded_rep')  # rep(<huge or symbolic count>) is an unbounded-work program, not an error
+            continue
+        if re.search(r'<<\s*\(?\s*(0[xX][0-9a-fA-F]{2,}|0[bB][01]{5,}|[0-9]{2,}|9)', probe):
+            # a mutated shift count >= 9 turns small constants into astronomically large pad / reserve / segment operands:
+            # size-amplifying (unbounded-work) programs, like rep(<huge>) - not error-handling material
+            runner.count('mutants_skipped_size_amplifying_shift')
             continue
         case = {'class': f'mutation/{label}', 'text': text, 'mention': [], 'w': w, 'version': rng.randrange(4),
                 'werror': rng.random() < 0.8}
